@@ -115,9 +115,46 @@ pub fn addr_tiny(s: &mut Scen, r: &mut Rng) -> bool {
     l.push((h, ix)); s.put(key, enc_inputs(t, &l)); true
 }
 
+// ---------------------------------------------------------------- present-but-empty collections
+/// optional collection fields of the body (true) / witness set (false) of the scenario's era: (key, is a map)
+pub fn collection_fields(s: &Scen) -> Vec<(bool, u64, bool)> {
+    let mut v = vec![(true, 4u64, false), (true, 5, true), (false, 0, false), (false, 1, false), (false, 2, false)];
+    if has_mint(s) { v.push((true, 9, true)) }
+    if s.has_scripts_era() { v.extend([(true, 13, false), (true, 14, false), (false, 3, false), (false, 4, false), (false, 5, false)]) }
+    if s.is_post_alonzo() { v.extend([(true, 18, false), (false, 6, false)]) }
+    if s.fam == Fam::Conway { v.extend([(true, 19, true), (true, 20, false), (false, 7, false)]) }
+    v
+}
+/// set one optional collection field to a present-but-empty list / set / map; an empty collateral field
+/// gets a Plutus witness script so that the collateral rules are exercised
+pub fn set_empty_collection(s: &mut Scen, body: bool, key: u64, map: bool, tagged: bool) {
+    let e = if map { c_map(&[]) } else if tagged { c_tag(258, &c_array(&[])) } else { c_array(&[]) };
+    if body { s.put(key, e) } else { s.wput(key, e) }
+    if body && key == 13 && s.wget(3).is_none() && s.wget(6).is_none() && s.wget(7).is_none() {
+        let k = match s.fam { Fam::Conway => 7, Fam::Babbage => 6, _ => 3 };
+        s.wput(k, c_array(&[c_bytes(&[0x4d, 1, 0, 0, 0x33, 0x22, 0x22, 0x20, 5, 0x12, 0, 0x12, 0, 0x11])]));
+    }
+}
+pub fn empty_collection(s: &mut Scen, r: &mut Rng) -> bool {
+    if !shelley(s) { return false }
+    let f = collection_fields(s); let (body, key, map) = *r.pick(&f);
+    let tagged = s.fam == Fam::Conway && r.chance(1, 2);
+    set_empty_collection(s, body, key, map, tagged); true
+}
+
 /// deterministic boundary sweep over one base scenario: (label, scenario)
 pub fn sweep(base: &Scen, r: &mut Rng) -> Vec<(String, Scen)> {
     let mut out = vec![];
+    if shelley(base) {
+        for (body, key, map) in collection_fields(base) {
+            for tagged in [false, true] {
+                if tagged && (base.fam != Fam::Conway || map) { continue }
+                let mut s = clone_scen(base);
+                set_empty_collection(&mut s, body, key, map, tagged);
+                out.push((format!("sweep-empty({}{}{})", if body { "body" } else { "wit" }, key, if tagged { "-set" } else { "" }), s));
+            }
+        }
+    }
     if has_mint(base) {
         for m in MINT_BOUNDS.iter().take(5) {
             for held in [None, Some(1u64), Some((1u64 << 63) - 1), Some(1u64 << 63), Some(u64::MAX)] {
